@@ -7,7 +7,6 @@ import (
 	"encoding/json"
 	"errors"
 	"fmt"
-	"reflect"
 	"strconv"
 	"strings"
 
@@ -298,7 +297,7 @@ func (c *Converter) ExpandContainerValue(ctx context.Context, p *sdcpb.Path, jv 
 						list = append(list, tvYangType)
 					}
 				default:
-					return nil, fmt.Errorf("leaflist %s expects array as input, but %v of type %v was given", np.String(), x, reflect.TypeOf(x).Name())
+					return nil, fmt.Errorf("leaflist %s expects array as input, but %v of type %T was given", np.String(), x, x)
 				}
 
 				upd := &sdcpb.Update{
